@@ -17,10 +17,10 @@ Section live3.
       by (intros; cbn in *; by rewrite Hib).
     assert (Hct : forall t0 k d, consumed s (ATarget t0) k d -> consumed s' (ATarget t0) k d)
       by (intros; cbn in *; by rewrite Hact).
-    destruct Hrs as [o rest Hp Hq Hq' Hign Hp'' (H1&H2&H3) Htq _
-                    |t rest _ Hp Hq Hq' Hp'' _ _ _
-                    |t act rest _ Hp Hq Hq' Hp'' H1 H2 H3 Htq _
-                    |t act rest _ Hp Hq Hq' Hp'' H1 H2 H3 Htq _
+    destruct Hrs as [pre o rest Hp Hq Hq' Hign Hp'' (H1&H2&H3) Htq _
+                    |pre t rest _ Hp Hq Hq' Hp'' _ _ _
+                    |pre t act rest _ Hp Hq Hq' Hp'' H1 H2 H3 Htq _
+                    |pre t act rest _ Hp Hq Hq' Hp'' H1 H2 H3 Htq _
                     |_ Hp HB HS Hsv0 Hp'' _ _ _ _
                     |_ Hp HB HS Hsv0 Hp'' _ _ _ _
                     |_ Hp'' Hq' (H1&H2&H3) Htq _
@@ -28,18 +28,18 @@ Section live3.
                     |st Hp _ Hp'' _ _ _ _]; try congruence.
     - split; [done|]. split; [intros [] x; cbn; by rewrite ?H1, ?H2|].
       intros [|t0] k d [[act Hm]|Hc]; [| |left; eauto|right; eauto].
-      + left. exists act. cbn in *. rewrite Hq in Hm. rewrite Hq'. apply elem_of_cons in Hm as [<-|?]; [|done].
+      + left. exists act. cbn in *. rewrite Hq in Hm. rewrite Hq'. apply elem_of_mid_inv in Hm as [<-|?]; [|done].
         destruct Hign as [?|Hign]; done.
       + right. cbn in *. destruct k; cbn; by rewrite ?H1, ?H2.
     - split; [done|]. split; [intros [] x; cbn; rewrite ?H1, ?H2; set_solver|].
       intros [|t0] k d [[act0 Hm]|Hc]; [| |left; eauto|right; eauto].
-      + cbn in Hm. rewrite Hq in Hm. apply elem_of_cons in Hm as [Heq|?].
+      + cbn in Hm. rewrite Hq in Hm. apply elem_of_mid_inv in Hm as [Heq|?].
         * injection Heq as -> -> ->. right. cbn. rewrite H1. set_solver.
         * left. exists act0. cbn. by rewrite Hq'.
       + right. cbn in *. destruct k; cbn in *; rewrite ?H1, ?H2; set_solver.
     - split; [done|]. split; [intros [] x; cbn; rewrite ?H1, ?H2; set_solver|].
       intros [|t0] k d [[act0 Hm]|Hc]; [| |left; eauto|right; eauto].
-      + cbn in Hm. rewrite Hq in Hm. apply elem_of_cons in Hm as [Heq|?].
+      + cbn in Hm. rewrite Hq in Hm. apply elem_of_mid_inv in Hm as [Heq|?].
         * injection Heq as -> -> ->. right. cbn. rewrite H2. set_solver.
         * left. exists act0. cbn. by rewrite Hq'.
       + right. cbn in *. destruct k; cbn in *; rewrite ?H1, ?H2; set_solver.
